@@ -264,6 +264,9 @@ impl<'a> Gen<'a> {
             Ty::BoxStr => "v.str().to_string().into_boxed_str()".to_string(),
             Ty::Vec(e) => format!("v.seq().iter().map(b_{}).collect::<Vec<_>>()", self.k(e)),
             Ty::BoxSlice(e) => format!("v.seq().iter().map(b_{}).collect::<Vec<_>>().into_boxed_slice()", self.k(e)),
+            // (an empty array is written as a literal: `from_fn` would reserve a stack slot for one item even if
+            // it is never built, and the item may be a type of gigabytes)
+            Ty::Array(_, _) if t.array_len() == 0 => "{ let _ = v; [] }".to_string(),
             Ty::Array(e, _) => format!("{{ let _s = v.seq(); core::array::from_fn(|i| b_{}(&_s[i])) }}", self.k(e)),
             Ty::Tuple(e, n) => {
                 let mut s = String::from("{ let s = v.seq(); (");
